@@ -49,6 +49,7 @@ type worker[T any, JobType iJob[T]] struct {
 	errorChan       chan error
 	waiters         *sync.Cond
 	tickers         []*time.Ticker
+	tickerDones     []chan struct{}
 	mx              sync.RWMutex
 	ctx             context.Context
 	cancel          context.CancelFunc
@@ -391,12 +392,21 @@ func (w *worker[T, JobType]) goRemoveIdleWorkers() {
 	}
 
 	ticker := time.NewTicker(interval)
+	// Ticker.Stop does not close ticker.C: the goroutine needs its own stop signal
+	done := make(chan struct{})
 	w.mx.Lock()
 	w.tickers = append(w.tickers, ticker)
+	w.tickerDones = append(w.tickerDones, done)
 	w.mx.Unlock()
 
 	go func() {
-		for range ticker.C {
+		for {
+			select {
+			case <-done:
+				return
+			case <-ticker.C:
+			}
+
 			// Calculate the target number of idle workers
 			targetIdleWorkers := w.numMinIdleWorkers()
 
@@ -471,7 +481,12 @@ func (w *worker[T, JobType]) stopTickers() {
 		ticker.Stop()
 	}
 
+	for _, done := range w.tickerDones {
+		close(done)
+	}
+
 	w.tickers = make([]*time.Ticker, 0)
+	w.tickerDones = nil
 }
 
 func (w *worker[T, JobType]) closeChannels() {
@@ -631,6 +646,8 @@ func (w *worker[T, JobType]) Restart() error {
 		return ErrNotRunningWorker
 	}
 
+	// the previous run's idle-worker remover must not outlive it
+	w.stopTickers()
 	w.closeChannels()
 
 	w.mx.Lock()
